@@ -570,6 +570,9 @@ func implLine(line string) (res string, fatal bool) {
 	if len(f) > 0 && f[0] == "p" {
 		return pbfLine(f)
 	}
+	if len(f) > 0 && f[0] == "t" {
+		return truncLine(f)
+	}
 	if len(f) < 5 || f[0] != "x" || f[4] != "|" {
 		return "badline", false
 	}
